@@ -354,3 +354,49 @@ Example C07_netlist_clone_sample :
   let s := run ops init in
   kind_of s 0 = Some KNetlist /\ Closed s 0 /\ snd (fst (clone_netlist s 0)) = None /\ net_insts s 0 = [6; 9].
 Proof. split; [reflexivity|]. split; [apply closedb_ok; vm_compute; reflexivity|]. split; vm_compute; reflexivity. Qed.
+
+(* clone() of any element keeps the structural invariant in every state reached by ANY mixed history of
+   editing calls, completed clones of the eight kinds, completed uniquify and flatten runs - not only in
+   states reachable by editing calls (C07_clone_any_keeps_invariant). Proofs/XHistAll.v. *)
+From Coq Require Import NArith.
+From SV Require Import Xform.Xform Proofs.XHistAll.
+Theorem C07_clone_any_after_any_history : forall l u f x e,
+  xrun_all l (mkX init u f) = Some x -> (kind_of (st x) e = Some KNetlist -> Closed (st x) e) ->
+  snd (fst (clone_any (st x) e)) = None -> Inv (fst (fst (clone_any (st x) e))).
+Proof. exact clone_any_after_history. Qed.
+Print Assumptions C07_clone_any_after_any_history.
+
+(* after a completed clone of any element, any further mixed history keeps the whole store - the original
+   and the copy - well-formed: containers and parents agree and are typed, pin-wire links agree, reference
+   sets and outer-pin tables mirror the definitions *)
+Theorem C07_then_any_history : forall l0 e l u f x0 x',
+  xrun_all l0 (mkX init u f) = Some x0 ->
+  clone_pre (st x0) e = true -> snd (fst (clone_any (st x0) e)) = None ->
+  xrun_all l (mkX (fst (fst (clone_any (st x0) e))) (uniq_ctr x0) (flat_ctr x0)) = Some x' ->
+  Inv (st x') /\ InvT (st x').
+Proof. exact clone_then_any_history. Qed.
+Print Assumptions C07_then_any_history.
+
+(* non-vacuity: a design with a leaf cell, a middle cell and a top cell; Netlist.clone completes (the design is closed);
+   then Library.clone, Port.clone, two edits of the copied netlist, uniquify and flatten of the copy and a clone of the
+   flattened copy all complete *)
+Example C07_then_any_history_sample :
+  let ops := [ ONew KNetlist None []; OCreate RLibs 0 None [] 0 None; OCreate RDefs 1 (Some [76%N]) [] 0 None;
+               OCreate RPorts 2 (Some [112%N]) [] 1 None; OCreate RDefs 1 (Some [77%N]) [] 0 None;
+               OCreate RChildren 5 (Some [105%N]) [] 0 (Some 2); OCreate RCables 5 (Some [99%N]) [] 1 None;
+               OConnect 8 (POut 6 4) None; OCreate RDefs 1 (Some [84%N]) [] 0 None;
+               OCreate RChildren 9 (Some [97%N]) [] 0 (Some 5); OCreate RChildren 9 (Some [98%N]) [] 0 (Some 5);
+               OSetTop 0 (TopDef 9) ] in
+  let l := [ YClone 1; YClone 3; YEdit (ODisconnect 20 (POut 21 17)); YEdit (OCreate RCables 18 (Some [100%N]) [] 1 None);
+             YUniquify 20 13; YFlatten 50 13; YClone 13 ] in
+  match xrun_all (map YEdit ops) (mkX init 0 0) with
+  | Some x0 =>
+      clone_pre (st x0) 0 = true /\ snd (fst (clone_any (st x0) 0)) = None /\ snd (clone_any (st x0) 0) = 13 /\
+      match xrun_all l (mkX (fst (fst (clone_any (st x0) 0))) (uniq_ctr x0) (flat_ctr x0)) with
+      | Some x => next (st x) = 66 /\ kids (st x) RDefs 14 = [15; 18; 41; 22] /\ kids (st x) RChildren 22 = [46; 21] /\
+                  top (st x) 13 = Some 25 /\ kids (st x) RDefs 1 = [2; 5; 9] /\ kids (st x) RPins 37 = [38]
+      | None => False
+      end
+  | None => False
+  end.
+Proof. vm_compute. repeat split. Qed.
